@@ -56,6 +56,11 @@ pub enum Step {
     SubClone(usize),
     SubCloneReset(usize),
     SubDrop(usize),
+    /// The subscriber is moved into a task whose waker owns it (`Arc<Task>: Wake`), polled once,
+    /// and — if it is Pending — abandoned by the executor: from then on only the waker registered
+    /// inside the observable keeps the task (and its subscriber) alive, until the next notifying
+    /// update or the close drains the waker list.
+    Park(usize),
     /// poll the k-th runnable subscriber (woken, never polled, or last poll was Ready) with the
     /// poll flavour given
     PollWoken(usize, u8),
@@ -97,6 +102,7 @@ impl Step {
             SubClone(_) => 29,
             SubCloneReset(_) => 30,
             SubDrop(_) => 31,
+            Park(_) => 34,
             PollWoken(..) => 32,
             Settle => 33,
         }
@@ -120,6 +126,11 @@ pub struct Config {
     /// evaluate the handle-count oracle (C19) after every step
     #[serde(default)]
     pub counts: bool,
+    /// C19 runs: an upgrade that succeeds although no owner exists (a C03 matter, reported by C03's
+    /// check) does not end the run; the unexpected handle is adopted as a live clone and the count
+    /// oracle keeps judging.
+    #[serde(default)]
+    pub adopt_unexpected_upgrade: bool,
     pub teardown: u64,
 }
 
